@@ -207,7 +207,7 @@ func (d *Descriptor) readAsSlice(out Outputter, data []byte) (n int, err error) 
 
 	case FieldTypeStruct, FieldTypeSlice, FieldTypeString:
 		count, n := plenccore.ReadVarUint(data)
-		if n < 0 {
+		if n < 0 || (n == 0 && len(data) > 0) {
 			return 0, fmt.Errorf("corrupt data looking for WTSlice count")
 		}
 		offset := n
@@ -254,6 +254,9 @@ func (d *Descriptor) readAsMapEntry(out Outputter, data []byte) (n int, err erro
 	var offset int
 	for offset < l {
 		wt, index, n := plenccore.ReadTag(data[offset:])
+		if n <= 0 {
+			return 0, fmt.Errorf("corrupt tag in %s", d.Name)
+		}
 		offset += n
 
 		var elt *Descriptor
@@ -306,6 +309,9 @@ func (d *Descriptor) readAsStruct(out Outputter, data []byte) (n int, err error)
 	var offset int
 	for offset < l {
 		wt, index, n := plenccore.ReadTag(data[offset:])
+		if n <= 0 {
+			return 0, fmt.Errorf("corrupt tag in %s", d.Name)
+		}
 		offset += n
 
 		var elt *Descriptor
@@ -358,11 +364,14 @@ func (d *Descriptor) readAsStruct(out Outputter, data []byte) (n int, err error)
 // case the name is omitted from each entry
 func (d *Descriptor) readAsJSON(out Outputter, data []byte) (n int, err error) {
 	count, n := plenccore.ReadVarUint(data)
-	if n < 0 {
+	if n < 0 || (n == 0 && len(data) > 0) {
 		return 0, fmt.Errorf("corrupt data looking for WTSlice count")
 	}
 	offset := n
 	for i := 0; i < int(count); i++ {
+		if offset >= len(data) {
+			return 0, fmt.Errorf("corrupt data looking for length of entry %d", i)
+		}
 		// For each entry we have a string key, a value type and a value
 		s, n := plenccore.ReadVarUint(data[offset:])
 		if n <= 0 {
@@ -371,6 +380,9 @@ func (d *Descriptor) readAsJSON(out Outputter, data []byte) (n int, err error) {
 		offset += n
 		if s == 0 {
 			continue
+		}
+		if s > uint64(len(data)-offset) {
+			return 0, fmt.Errorf("corrupt data reading entry %d", i)
 		}
 
 		n, err := d.readJSONObjectKV(out, data[offset:offset+int(s)])
@@ -391,12 +403,15 @@ func (d *Descriptor) readJSONObjectKV(out Outputter, data []byte) (n int, err er
 
 	for offset < len(data) {
 		wt, index, n := plenccore.ReadTag(data[offset:])
+		if n <= 0 {
+			return 0, fmt.Errorf("corrupt tag in JSON entry")
+		}
 		offset += n
 		switch index {
 		case 1:
 			// When using this for reading arrays we simply don't see this index
 			l, n := plenccore.ReadVarUint(data[offset:])
-			if n < 0 {
+			if n <= 0 || l > uint64(len(data)-offset-n) {
 				return 0, fmt.Errorf("bad length on string field")
 			}
 			offset += n
@@ -410,7 +425,7 @@ func (d *Descriptor) readJSONObjectKV(out Outputter, data []byte) (n int, err er
 			offset += n
 		case 2:
 			v, n := plenccore.ReadVarUint(data[offset:])
-			if n < 0 {
+			if n <= 0 {
 				return 0, fmt.Errorf("invalid map type field")
 			}
 			jType = jsonType(v)
@@ -419,7 +434,7 @@ func (d *Descriptor) readJSONObjectKV(out Outputter, data []byte) (n int, err er
 			switch jType {
 			case jsonTypeString:
 				l, n := plenccore.ReadVarUint(data[offset:])
-				if n < 0 {
+				if n <= 0 || l > uint64(len(data)-offset-n) {
 					return 0, fmt.Errorf("bad length on string field")
 				}
 				offset += n
@@ -476,7 +491,7 @@ func (d *Descriptor) readJSONObjectKV(out Outputter, data []byte) (n int, err er
 
 			case jsonTypeNumber:
 				l, n := plenccore.ReadVarUint(data[offset:])
-				if n < 0 {
+				if n <= 0 || l > uint64(len(data)-offset-n) {
 					return 0, fmt.Errorf("bad length on JSON number field")
 				}
 				offset += n
